@@ -145,6 +145,16 @@ CHECKS = {
         "sum_bonds(-t hop + V n n) + sum_sites(U n_up n_down - mu n) exactly once per bond and per site. parse_edges_to_site_info is checked on the same inputs: one bond name per edge on exactly its two ends with "
         "opposite directions, coordination = degree, consistent lengths.",
    note="Trusted: Jordan-Wigner reference; conversion factor (-1)**(p(i')p(j')) between the documented element convention and the true dual basis (validated against C18). quimb-based builders (tfim, heisenberg) need a package that is not installed."),
+ "C15": dict(engine="E-hist + E-sched", design_ref="DESIGN.md 5 C15",
+   technique="explicit-state search over call histories of the process-wide caches (deduplicated by recorded cache contents) against cold cache-less reference results; exhaustive check of the default-mode context manager; stateless preemption-bounded exploration of real thread interleavings under a sys.settrace baton scheduler",
+   text="(a) On a family of arrays that differ from a base array in exactly one attribute (one direction via conj of the same index object, one block size, one charge label, one missing sector, block order, "
+        "total charge, symmetry object, sub-index structure with equal table, dtype) every history of up to 2 events over the full alphabet (88 events) and up to 3 over a core alphabet is executed from a cold state "
+        "under fuse-cache sizes 0, 1, 2, 8192 x sector limits 1, 512 (and through the environment variable in a fresh interpreter); the last result must equal that event's result in a cold, cache-less state. System "
+        "state = ordered fuse-cache keys, argument sets seen by every lru_cache (recorded by wrapping), hash-memo flags of the shared index objects, default mode. (b) default_tensordot_mode: every initial mode x "
+        "nesting <=2 x body outcome restores the mode and propagates the exception. (c) Seven two-thread scenarios on shared operands (same cache key cold, mutually evicting keys with maxsize 1, fused contractions, "
+        "fuse vs reshape, svd_truncated vs fuse, fermionic lazy signs) are run under every schedule with at most one preemption, scheduling points = every line of library code and every opcode in the cache / "
+        "hash-memo / mode functions (~11k schedules): results must equal the sequential ones, operands stay bit-identical, no exception.",
+   note="Trusted: the baton scheduler serialises threads (sequential consistency at line / opcode granularity); real parallelism inside numpy with the GIL released and free-threaded builds are not modelled. Per execution all caches are cleared and operands rebuilt so prefixes replay deterministically."),
 }
 
 _ALL = ["C%02d" % i for i in range(1, 21)]
